@@ -290,6 +290,17 @@ func safeSort(u *Unit, t types.Type) Sort {
 	return u.sortOf(t)
 }
 
+func litInt(t Term) (int64, bool) {
+	if t.Sort != SInt {
+		return 0, false
+	}
+	n, err := strconv.ParseInt(t.S, 10, 64)
+	if err != nil {
+		return 0, false
+	}
+	return n, true
+}
+
 func isNilV(v Value) bool {
 	return v.S == "nil_Val" && v.Ty == types.Typ[types.UntypedNil]
 }
@@ -466,6 +477,19 @@ func (u *Unit) specCall(x *ast.CallExpr, env *Env, sc *specCtx) Value {
 		name := x.Args[0].(*ast.Ident).Name
 		lo := u.sv(x.Args[1], env, sc)
 		hi := u.sv(x.Args[2], env, sc)
+		if a, ok1 := litInt(lo.Term); ok1 {
+			if b, ok2 := litInt(hi.Term); ok2 && b-a <= 4 {
+				// small constant range: expand
+				var parts []Term
+				for v := a; v < b; v++ {
+					parts = append(parts, u.sv(x.Args[3], env, u.withBound(sc, name, Value{IntLit(v), intT})).Term)
+				}
+				if fname == "forall" {
+					return Value{And(parts...), boolT}
+				}
+				return Value{Or(parts...), boolT}
+			}
+		}
 		bv := u.D.Bound(name, SInt)
 		body := u.sv(x.Args[3], env, u.withBound(sc, name, Value{bv, intT}))
 		rng := And(le(lo.Term, bv), lt(bv, hi.Term))
@@ -479,7 +503,7 @@ func (u *Unit) specCall(x *ast.CallExpr, env *Env, sc *specCtx) Value {
 		v := u.sv(x.Args[1], env, sc)
 		tok, ok := u.lamTok[a.S]
 		if !ok {
-			unsup("reveal of a value that is not an opaque lambda")
+			return Value{True, boolT} // not an opaque definition in this context (e.g. a callee's witness): nothing to reveal
 		}
 		if v.Sort != SVal {
 			v = u.specBox(v, env)
@@ -519,10 +543,24 @@ func (u *Unit) specCall(x *ast.CallExpr, env *Env, sc *specCtx) Value {
 		// forall2(k, lo, hi, l, lo2, hi2, body): one quantifier over two integer variables
 		n1 := x.Args[0].(*ast.Ident).Name
 		n2 := x.Args[3].(*ast.Ident).Name
-		b1 := u.D.Bound(n1, SInt)
-		b2 := u.D.Bound(n2, SInt)
 		lo1 := u.sv(x.Args[1], env, sc)
 		hi1 := u.sv(x.Args[2], env, sc)
+		if a, ok1 := litInt(lo1.Term); ok1 {
+			if b, ok2 := litInt(hi1.Term); ok2 && b-a <= 4 {
+				var parts []Term
+				for v := a; v < b; v++ {
+					scv := u.withBound(sc, n1, Value{IntLit(v), intT})
+					bj := u.D.Bound(n2, SInt)
+					l2 := u.sv(x.Args[4], env, scv)
+					h2 := u.sv(x.Args[5], env, scv)
+					bd := u.sv(x.Args[6], env, u.withBound(scv, n2, Value{bj, intT}))
+					parts = append(parts, Forall([]Term{bj}, Imp(And(le(l2.Term, bj), lt(bj, h2.Term)), bd.Term)))
+				}
+				return Value{And(parts...), boolT}
+			}
+		}
+		b1 := u.D.Bound(n1, SInt)
+		b2 := u.D.Bound(n2, SInt)
 		sc1 := u.withBound(sc, n1, Value{b1, intT})
 		lo2 := u.sv(x.Args[4], env, sc1)
 		hi2 := u.sv(x.Args[5], env, sc1)
@@ -556,6 +594,30 @@ func (u *Unit) specCall(x *ast.CallExpr, env *Env, sc *specCtx) Value {
 			n.names = sc.oldNames
 		}
 		return u.sv(x.Args[0], sc.old, &n)
+	case "oldheap":
+		// the expression with the CURRENT values of variables but read in the heaps as they were at entry
+		// (for inputs that are never written this is the same thing, without going through frame axioms)
+		base := u.entry
+		if sc.names != nil && sc.old != nil {
+			base = sc.old
+		}
+		e2 := env.clone()
+		for n, h := range base.heaps {
+			e2.heaps[n] = h
+		}
+		for n := range e2.heaps {
+			if _, ok := base.heaps[n]; !ok {
+				delete(e2.heaps, n)
+			}
+		}
+		v := u.sv(x.Args[0], e2, sc)
+		// heaps first touched during this evaluation are entry heaps too; make them known to env
+		for n, h := range e2.heaps {
+			if _, ok := env.heaps[n]; !ok {
+				env.heaps[n] = h
+			}
+		}
+		return v
 	case "len":
 		v := u.sv(x.Args[0], env, sc)
 		if v.Sort == SSlice {
